@@ -116,8 +116,28 @@ def subviewH : Handler := fun j => do
   let base ← nat (← field j "base")
   return jExc jNat (subviewPtr f13 el base l.ts offs dyn)
 
+/-- args: {"layout": L | null, "strides"/"tile_bounds"/"offset" (used when layout is null: from_strides),
+    "shape": [nat], "el": nat, "el_size": nat, "meta": [nat]} -> {"layout": L, "bounds": …, "steps": …} -/
+def resolveStridedH : Handler := fun j => do
+  let lj ← field j "layout"
+  let l ← if lj.isNull then do
+      let st ← listOf (optOf nat) (← field j "strides")
+      let tb ← listOf (listOf (optOf nat)) (← field j "tile_bounds")
+      let off ← optOf int (← field j "offset")
+      pure (fromStrides st tb off)
+    else layoutOfJson lj
+  let sh ← listOf nat (← field j "shape")
+  let el ← nat (← field j "el")
+  let elSize ← nat (← field j "el_size")
+  let mstr ← listOf nat (← field j "meta")
+  let bs := boundsAt l.ts sh
+  let ss : Json := match bs with
+    | .ok b => jExc (jList (jList jNat)) (stepsAtStrided l b el elSize mstr)
+    | .error _ => Json.null
+  return Json.mkObj [("layout", layoutToJson l), ("bounds", jExc (jList (jList jNat)) bs), ("steps", ss)]
+
 def handlers : List (String × Handler) :=
   [("c10.views", views), ("c10.from_strides", fromStridesH), ("c10.resolve", resolveH),
-   ("c10.parse", parseH), ("c10.subview", subviewH)]
+   ("c10.parse", parseH), ("c10.subview", subviewH), ("c10.resolve_strided", resolveStridedH)]
 
 end SnaxVerif.Drv.C10
